@@ -192,7 +192,8 @@ CHECKS["C06"] = dict(
          "switch_write_follows_the_rule (states pushed through the rule child by child), no_other_property_changes, no_other_device_is_reached "
          "(router), submit_sends_exactly_the_assigned_elements (client), and a_submitted_write_end_to_end: in the composed system model a connected "
          "network client's submitted write reaches the driver of the named device, what the driver publishes reaches the client, nothing stays in "
-         "flight and the writer's view is in sync with the device again (writes that make the driver publish no BLOB update). That the system "
+         "flight and the writer's view is in sync with the device again; a_submitted_write_keeps_the_connection: the same for every write, uploads to BLOB "
+         "properties included, with the whole connection invariant re-established so that any history of writes and driver operations can follow. That the system "
          "model (System/Model.v) is the real stack client -> serializer -> fragmented stream -> server connection handler -> framing -> router -> "
          "driver -> back is VALIDATED by running the real stack "
          "(byte pipes with fragmentation between the library's client and server connection handlers) and comparing every device state and client "
